@@ -133,3 +133,36 @@ func VerifC09_SendAsyncAfterEnd() {
 	e2, _ := c09NextGen(v)
 	vsymAssert(len(e2.sendCh) == 0, "new-generation-queue-starts-empty")
 }
+
+// VerifC09_PooledStateVT: object pools (timers, and anything else the send path recycles) are shared
+// across generations. A W-bit send on generation 1 has its reply routed at the very moment the
+// generation ends, so it may leave without consuming it (every ready-set choice of its wait is
+// explored); a new W-bit send on generation 2 to a silent peer must then end with T3, never with
+// the earlier transaction's reply.
+func VerifC09_PooledStateVT() {
+	vsymExpect("second-send-timed-out")
+	vsymPoolReuse(true)
+	v := newVConnection(SelectedState)
+	e1 := v.e
+	first := true
+	v.tr.onWrite = func(w vwrite) {
+		if !first || len(w.bytes) < 14 {
+			return
+		}
+		first = false
+		var sys [4]byte
+		copy(sys[:], w.bytes[10:14])
+		_ = v.c.DeliverOwnedFrame(dataFrame(0xFFFF, 1, 2, sys, []byte{0xA5, 0x01, 0x77}))
+		e1.cancel()
+		e1.closeSocket()
+	}
+	r1, err1 := v.c.SendDataMessage(context.Background(), 1, 1, true, secs2.A("one"))
+	vsymAssert((r1 != nil) != (err1 != nil), "first-send-reply-xor-error")
+	// generation 2
+	e2, _ := c09NextGen(v)
+	_ = e2
+	r2, err2 := v.c.SendDataMessage(context.Background(), 1, 3, true, secs2.A("two"))
+	vsymReach("second-send-timed-out")
+	vsymAssert(r2 == nil, "no-reply-from-the-earlier-generation")
+	vsymAssert(errors.Is(err2, ErrT3Timeout), "silent-peer-means-T3")
+}
